@@ -971,6 +971,10 @@ def engine_ct(prop, tier, seed, spec):
                 continue
             agg.evaluations += 1
             agg.hashes.add(hashlib.sha1(("%s/%s/%s/%s" % (cfg, op, a.hex(), b.hex())).encode()).digest()[:8])
+            if len(agg.violations) >= 8:
+                # enough confirmed divergences to fail the run; confirming each further one costs four more traces
+                agg.classes["trace-pairs-not-compared-after-8-confirmed-violations"] = agg.classes.get("trace-pairs-not-compared-after-8-confirmed-violations", 0) + 1
+                continue
             d = cttrace.compare(binp, ref, traces[k])
             if d is None:
                 continue
